@@ -11,13 +11,16 @@ BEGIN, END = "<!-- seeded-table:begin -->", "<!-- seeded-table:end -->"
 
 def main():
     hist_extra = json.load(open(os.path.join(HERE, "tools", "seed_history.json")))
+    summ = json.load(open(os.path.join(HERE, "tools", "seed_summary.json")))
     rows = []
     for mp in sorted(glob.glob(os.path.join(HERE, "seeded", "*", "meta.json"))):
         m = json.load(open(mp))
         det = ", ".join(m.get("detected_by", [])) or "-"
         missed = ", ".join(k for k, v in m.get("checks", {}).items() if v.get("rc") == 0) or "-"
-        hist = "; ".join(m.get("history", []) + hist_extra.get(m["id"], []))
-        rows.append(f"| {m['id']} | {m['breaks_property']} | {m.get('summary', '')} | {m.get('needs_to_manifest', '')} | "
+        earlier = [f"{k} silent at {e.get('verif') or 'an earlier commit'}" for k, v in m.get("checks", {}).items()
+                   for e in v.get("earlier", []) if e.get("rc") == 0 and v.get("rc") == 1]
+        hist = "; ".join(m.get("history", []) + hist_extra.get(m["id"], []) + earlier)
+        rows.append(f"| {m['id']} | {m['breaks_property']} | {m.get('summary') or summ.get(m['id'], '')} | {m.get('needs_to_manifest', '')} | "
                     f"{'yes' if m.get('confirmed') else 'NO'} | {det} | {missed} | {hist} |")
     table = ("| id | property | change | needs, to manifest | confirmed | detected by (exit 1) | run but silent | history |\n"
              "|---|---|---|---|---|---|---|---|\n" + "\n".join(rows))
